@@ -579,27 +579,32 @@ package libinjection
 //@      (s.current.category != 0 ==> faithful(s, s.current, p, r)) && (s.current.category == 0 ==> zeroT(s.current))
 
 //@ func (*sqliToken).assign
+//@   rel on
 //@   requires 0 <= length && min(length, 31) <= len(value)
 //@   modifies t.category, t.pos, t.len, t.val
 //@   ensures  [C01 C16 C18 C06] @assign t.category == tokenType && t.pos == pos && t.len == min(length, 31) && aliases(t.val, value[:min(length, 31)])
 //@   cost     <= 1
 
 //@ func (*sqliToken).isUnaryOp
+//@   rel on
 //@   requires 0 <= t.len && t.len <= len(t.val)
 //@   modifies nothing
 //@   ensures  [C01 C06] result ==> t.category == sqliTokenTypeOperator
 
 //@ func (*sqliToken).isArithmeticOp
+//@   rel on
 //@   requires 0 <= t.len && t.len <= len(t.val)
 //@   modifies nothing
 //@   ensures  result ==> t.category == sqliTokenTypeOperator && t.len == 1
 
 //@ func toUpperCmp
+//@   rel eq a
 //@   modifies nothing
 //@   ensures  [C06 C10] @ascii (forall j in [0, len(b)): b[j] < 128) ==> (result <==> (len(a) == len(b) && (forall j in [0, len(b)): a[j] == up(b[j]))))
 //@   ensures  @len2 result && len(a) >= 2 && a[0] < 128 ==> len(b) >= 2
 
 //@ func searchKeyword
+//@   rel on
 //@   modifies nothing
 //@   justify  pureOfParams
 //@   defines  [C08 C10] @kwu result == KWU(key)
@@ -624,6 +629,7 @@ package libinjection
 //@      (odd(bsRunA(a, lo, firstAbs(a, i, hi, d))) ? scanEnd(a, lo, firstAbs(a, i, hi, d) + 1, hi, d) :
 //@       ((firstAbs(a, i, hi, d) + 1 < hi && sel(a, firstAbs(a, i, hi, d) + 1) == d) ? scanEnd(a, lo, firstAbs(a, i, hi, d) + 2, hi, d) : firstAbs(a, i, hi, d)))
 //@ func isBackslashEscaped
+//@   rel on
 //@   modifies nothing
 //@   ensures  [C18 C06] @parity result <==> odd(bsRunA(arr(str), off(str), off(str) + len(str)))
 //@   cost     <= bsRunA(arr(str), off(str), off(str) + len(str)) + 2
@@ -632,7 +638,19 @@ package libinjection
 //@   loop 1 invariant -1 <= i && i < len(str) && 0 <= count && count <= len(str) - 1 - i
 //@   loop 1 decreases i + 1
 
+//@ spec hasDollar(a string) bool = exists k in [0, len(a)): a[k] == '$'
+//@ spec upSp(a string, j int) bool = up(a[j]) == 'S' && up(a[j+1]) == 'P' && a[j+2] == '_' && up(a[j+3]) == 'P' && up(a[j+4]) == 'A' && up(a[j+5]) == 'S' && up(a[j+6]) == 'S' &&
+//@      up(a[j+7]) == 'W' && up(a[j+8]) == 'O' && up(a[j+9]) == 'R' && up(a[j+10]) == 'D'
+//@ spec sameAt11(a string, b string, j int) bool = a[j] == b[j] && a[j+1] == b[j+1] && a[j+3] == b[j+3] && a[j+4] == b[j+4] && a[j+5] == b[j+5] && a[j+6] == b[j+6] && a[j+7] == b[j+7] &&
+//@      a[j+8] == b[j+8] && a[j+9] == b[j+9] && a[j+10] == b[j+10]
+//@ spec relInput(a string, b string) bool = (forall k in [0, len(a) - 1): (a[k] == '\\' || a[k] == '\'') ==> a[k+1] == b[k+1]) && (forall k in [0, len(a) - 1): a[k+1] == '\'' ==> a[k] == b[k])
+//@ spec dollarFixed(a string, b string) bool = hasDollar(a) ==> (forall j in [0, len(a)): a[j] == b[j])
+//@ spec spFixed(a string, b string) bool = forall j in [0, len(a) - 10): upSp(a, j) ==> sameAt11(a, b, j)
+//@ relfield sqliState.input upeq relInput
+//@ spec caseClosed(a string) bool = forall k in [0, len(a)): (a[k] >= 'a' && a[k] <= 'z' ==> memberOf(a[k] - 32, a)) && (a[k] >= 'A' && a[k] <= 'Z' ==> memberOf(a[k] + 32, a))
 //@ func strLenSpn
+//@   rel eq accept
+//@   rel requires caseClosed(L(accept))
 //@   requires 0 <= length && length <= len(s) && len(accept) <= 64
 //@   modifies nothing
 //@   ensures  [C01 C16] @span 0 <= result && result <= length && (forall k in [0, result): memberOf(s[k], accept)) && (result < length ==> !memberOf(s[result], accept))
@@ -643,6 +661,8 @@ package libinjection
 //@   loop 1 invariant [C09] $cost <= 67 * i
 
 //@ func strLenCSpn
+//@   rel eq accept
+//@   rel requires forall c in [0, 256): L(accept)[c] == L(accept)[up(c)]
 //@   requires 0 <= length && length <= len(s) && len(accept) == 256
 //@   modifies nothing
 //@   ensures  [C01 C16] @span 0 <= result && result <= length && (forall k in [0, result): accept[s[k]] != 1) && (result < length ==> accept[s[result]] == 1)
@@ -697,6 +717,7 @@ package libinjection
 //@      t.strOpen == (offset > 0 ? d : 0) && t.strClose == (coreEnd(s, pos, offset, d) < len(s) ? d : 0) &&
 //@      r == (coreEnd(s, pos, offset, d) < len(s) ? coreEnd(s, pos, offset, d) + 1 : len(s))
 //@ func (*sqliToken).parseStringCore
+//@   rel requires !(up(L(delimiter)) >= 'A' && up(L(delimiter)) <= 'Z')
 //@   ensures  [C18 C06] @first_terminator corePost(t, s, pos, offset, delimiter, result)
 //@   loop 1 invariant [C18] scanEnd(arr(s), off(s) + pos + offset, off(s) + pos + offset, off(s) + len(s), delimiter) == scanEnd(arr(s), off(s) + pos + offset, off(str), off(s) + len(s), delimiter)
 //@   loop 1 unfold scanEnd(arr(s), off(s) + pos + offset, off(str), off(s) + len(s), delimiter)
@@ -713,6 +734,7 @@ package libinjection
 //@   loop 1 invariant [C09] $cost <= 7 * (off(str) - (off(s) + pos + offset)) + 2 && (off(str) == off(s) + pos + offset || sel(arr(s), off(str) - 1) == delimiter)
 
 //@ func parseEolComment
+//@   rel on
 //@   requires wfS(s) && s.pos < s.length && (s.input[s.pos] == '#' || (s.input[s.pos] == '-' && s.pos + 1 < s.length && s.input[s.pos+1] == '-'))
 //@   modifies s.current.category, s.current.pos, s.current.len, s.current.val
 //@   ensures  [C01 C16 C06] @lex lexOK(s, result) && s.current.category == sqliTokenTypeComment && s.current.pos == old(s.pos)
@@ -720,6 +742,7 @@ package libinjection
 
 //@ spec dd2At(s *sqliState, k int) bool = k + 1 < s.length && s.input[k] == '$' && s.input[k+1] == '$'
 //@ func parseMoney
+//@   rel requires dollarFixed(L(s.input), R(s.input))
 //@   requires wfS(s) && s.pos < s.length && s.input[s.pos] == '$'
 //@   modifies s.current.*
 //@   ensures  [C01 C16 C06] @lex lexOK(s, result)
@@ -729,12 +752,14 @@ package libinjection
 //@                 (s.current.strClose != '$' ==> s.current.strClose == 0 && result == s.length && (forall k in [p + 2, s.length): !dd2At(s, k)) && s.current.len == min(s.length - (p + 2), 31))
 
 //@ func parseOther
+//@   rel on
 //@   requires wfS(s) && s.pos < s.length
 //@   modifies s.current.category, s.current.pos, s.current.len, s.current.val
 //@   ensures  [C01 C16 C06] @lex lexOK(s, result) && result == old(s.pos) + 1
 //@   cost     <= 4
 
 //@ func parseWhite
+//@   rel on
 //@   requires wfS(s) && s.pos < s.length && zeroT(s.current)
 //@   modifies nothing
 //@   ensures  result == s.pos + 1
@@ -742,18 +767,21 @@ package libinjection
 //@   ensures  [C14] @plain s.input[s.pos] == ' ' ==> result == s.pos + 1
 
 //@ func parseOperator1
+//@   rel on
 //@   requires wfS(s) && s.pos < s.length
 //@   modifies s.current.category, s.current.pos, s.current.len, s.current.val
 //@   ensures  [C01 C16 C06] @lex lexOK(s, result) && result == old(s.pos) + 1 && s.current.category == sqliTokenTypeOperator
 //@   cost     <= 4
 
 //@ func parseByte
+//@   rel on
 //@   requires wfS(s) && s.pos < s.length && s.input[s.pos] in {'(', ')', ',', ';', '{', '}'}
 //@   modifies s.current.category, s.current.pos, s.current.len, s.current.val
 //@   ensures  [C01 C16 C06] @lex lexOK(s, result) && result == old(s.pos) + 1
 //@   cost     <= 4
 
 //@ func parseHash
+//@   rel on
 //@   requires wfS(s) && s.pos < s.length && s.input[s.pos] == '#' && 0 <= s.statsCommentHash && s.statsCommentHash <= 2 * s.pos
 //@   modifies s.current.category, s.current.pos, s.current.len, s.current.val, s.statsCommentHash
 //@   ensures  [C01 C16 C06] @lex lexOK(s, result)
@@ -761,6 +789,7 @@ package libinjection
 //@   cost     <= (result - old(s.pos)) + 12
 
 //@ func parseDash
+//@   rel on
 //@   requires wfS(s) && s.pos < s.length && s.input[s.pos] == '-' && 0 <= s.statsCommentDDX && s.statsCommentDDX <= s.pos
 //@   modifies s.current.category, s.current.pos, s.current.len, s.current.val, s.statsCommentDDX
 //@   ensures  [C01 C16 C06] @lex lexOK(s, result)
@@ -768,24 +797,28 @@ package libinjection
 //@   cost     <= (result - old(s.pos)) + 12
 
 //@ func parseSlash
+//@   rel on
 //@   requires wfS(s) && s.pos < s.length
 //@   modifies s.current.category, s.current.pos, s.current.len, s.current.val
 //@   ensures  [C01 C16 C06] @lex lexOK(s, result)
 //@   cost     <= 3 * (result - old(s.pos)) + 24
 
 //@ func parseBackSlash
-//@   requires wfS(s) && s.pos < s.length
+//@   rel on
+//@   requires wfS(s) && s.pos < s.length && s.input[s.pos] == '\\'
 //@   modifies s.current.category, s.current.pos, s.current.len, s.current.val
 //@   ensures  [C01 C16 C06] @lex lexOK(s, result)
 //@   cost     <= 4
 
 //@ func parseOperator2
+//@   rel on
 //@   requires wfS(s) && s.pos < s.length
 //@   modifies s.current.category, s.current.pos, s.current.len, s.current.val
 //@   ensures  [C01 C16 C06] @lex lexOK(s, result)
 //@   cost     <= 40
 
 //@ func parseString
+//@   rel on
 //@   requires wfS(s) && s.pos < s.length && (s.input[s.pos] == '\'' || s.input[s.pos] == '"')
 //@   modifies s.current.category, s.current.pos, s.current.len, s.current.val, s.current.strOpen, s.current.strClose
 //@   ensures  [C01 C16 C06] @lex lexOK(s, result) && s.current.category == sqliTokenTypeString
@@ -793,6 +826,7 @@ package libinjection
 //@   cost     <= 7 * (result - old(s.pos)) + 20
 
 //@ func parseWord
+//@   rel on
 //@   requires wfS(s) && s.pos < s.length && wordAccept(s.input[s.pos]) != 1
 //@   modifies s.current.*
 //@   reveal   PLAINL(s.input)
@@ -805,6 +839,7 @@ package libinjection
 //@   ensures  [C14] @plain old(PLAINL(s.input) && startOK(s) && !isDig(s.input[s.pos])) ==> plainStep(s, old(s.pos), result) && s.current.category == sqliTokenTypeBareWord
 
 //@ func parseVar
+//@   rel on
 //@   requires wfS(s) && s.pos < s.length
 //@   modifies s.current.*, s.pos
 //@   ensures  [C01 C16 C06] @lex wfS(s) && stepOK(s, old(s.pos), result) && s.current.category == sqliTokenTypeVariable
@@ -813,6 +848,7 @@ package libinjection
 //@   cost     <= 7 * (result - old(s.pos)) + 180
 
 //@ func parseNumber
+//@   rel on
 //@   requires wfS(s) && s.pos < s.length && ((s.input[s.pos] >= '0' && s.input[s.pos] <= '9') || s.input[s.pos] == '.')
 //@   modifies s.current.category, s.current.pos, s.current.len, s.current.val
 //@   reveal   PLAINL(s.input)
@@ -831,6 +867,7 @@ package libinjection
 //@   ensures  [C14] @plain old(PLAINL(s.input) && startOK(s)) && isDig(s.input[old(s.pos)]) ==> plainStep(s, old(s.pos), result) && s.current.category == sqliTokenTypeNumber
 
 //@ func parseTick
+//@   rel on
 //@   requires wfS(s) && s.pos < s.length
 //@   modifies s.current.category, s.current.pos, s.current.len, s.current.val, s.current.strOpen, s.current.strClose
 //@   ensures  [C01 C16 C06] @lex lexOK(s, result)
@@ -838,6 +875,7 @@ package libinjection
 //@   cost     <= 7 * (result - old(s.pos)) + 170
 
 //@ func parseUString
+//@   rel on
 //@   requires wfS(s) && s.pos < s.length && wordAccept(s.input[s.pos]) != 1
 //@   modifies s.current.*, s.pos
 //@   reveal   PLAINL(s.input)
@@ -853,6 +891,7 @@ package libinjection
 //@ spec qClose(c int) int = c == '(' ? ')' : (c == '[' ? ']' : (c == '{' ? '}' : (c == '<' ? '>' : c)))
 //@ spec qEndAt(s *sqliState, k int, c int) bool = k + 1 < s.length && s.input[k] == c && s.input[k+1] == '\''
 //@ func parseQStringCore
+//@   rel on
 //@   requires wfS(s) && s.pos < s.length && wordAccept(s.input[s.pos]) != 1 && (offset == 0 || offset == 1)
 //@   modifies s.current.*
 //@   reveal   PLAINL(s.input)
@@ -869,6 +908,7 @@ package libinjection
 //@   ensures  [C14] @plain old(plainWordStart(s)) ==> plainStep(s, old(s.pos), result) && s.current.category == sqliTokenTypeBareWord
 
 //@ func parseQString
+//@   rel on
 //@   requires wfS(s) && s.pos < s.length && wordAccept(s.input[s.pos]) != 1
 //@   modifies s.current.*
 //@   reveal   PLAINL(s.input)
@@ -877,6 +917,7 @@ package libinjection
 //@   ensures  [C14] @plain old(plainWordStart(s)) ==> plainStep(s, old(s.pos), result) && s.current.category == sqliTokenTypeBareWord
 
 //@ func parseNqString
+//@   rel on
 //@   requires wfS(s) && s.pos < s.length && wordAccept(s.input[s.pos]) != 1
 //@   modifies s.current.*
 //@   reveal   PLAINL(s.input)
@@ -886,6 +927,7 @@ package libinjection
 //@   ensures  [C14] @plain old(plainWordStart(s)) ==> plainStep(s, old(s.pos), result) && s.current.category == sqliTokenTypeBareWord
 
 //@ func parseXString
+//@   rel on
 //@   requires wfS(s) && s.pos < s.length && wordAccept(s.input[s.pos]) != 1
 //@   modifies s.current.*
 //@   reveal   PLAINL(s.input)
@@ -893,6 +935,7 @@ package libinjection
 //@   ensures  [C14] @plain old(plainWordStart(s)) ==> plainStep(s, old(s.pos), result) && s.current.category == sqliTokenTypeBareWord
 
 //@ func parseBString
+//@   rel on
 //@   requires wfS(s) && s.pos < s.length && wordAccept(s.input[s.pos]) != 1
 //@   modifies s.current.*
 //@   reveal   PLAINL(s.input)
@@ -900,6 +943,7 @@ package libinjection
 //@   ensures  [C14] @plain old(plainWordStart(s)) ==> plainStep(s, old(s.pos), result) && s.current.category == sqliTokenTypeBareWord
 
 //@ func parseEString
+//@   rel on
 //@   requires wfS(s) && s.pos < s.length && wordAccept(s.input[s.pos]) != 1
 //@   modifies s.current.*
 //@   reveal   PLAINL(s.input)
@@ -909,6 +953,7 @@ package libinjection
 //@   ensures  [C14] @plain old(plainWordStart(s)) ==> plainStep(s, old(s.pos), result) && s.current.category == sqliTokenTypeBareWord
 
 //@ func parseBWord
+//@   rel on
 //@   requires wfS(s) && s.pos < s.length
 //@   modifies s.current.category, s.current.pos, s.current.len, s.current.val
 //@   ensures  [C01 C16 C06] @lex lexOK(s, result)
